@@ -35,14 +35,16 @@ C_ = 'minecraft.networking.connection.Connection.'
 
 
 class GSock(object):
-    def __init__(self, log, fail_connect=False, shutdown_raises=False):
+    def __init__(self, log, fail_connect=False, shutdown_raises=False, established=True):
         self.log, self.fail_connect, self.shutdown_raises = log, fail_connect, shutdown_raises
         self.closed = False
+        self.established = established     # TCP connection exists (False: fresh or refused socket)
 
     def connect(self, addr):
         self.log.append('sock.connect')
         if self.fail_connect:
             raise ConnectionRefusedError(111, 'Connection refused')
+        self.established = True
 
     def makefile(self, *a):
         self.log.append('sock.makefile')
@@ -59,6 +61,8 @@ class GSock(object):
 
     def send(self, data):
         self.log.append('sock.send')
+        if not self.established or self.closed:
+            raise BrokenPipeError(32, 'Broken pipe')
 
 
 class GFile(object):
@@ -369,6 +373,49 @@ def replay_live():
                 observed=bad or 'conforms')
 
 
+def replay_stale_queue():
+    """Live: a connection ends with a packet still queued, the next connect is refused at TCP level, then disconnect()."""
+    import socket, time
+    from minecraft.networking.packets import serverbound
+    srv = socket.socket()
+    srv.bind(('127.0.0.1', 0))
+    srv.listen(2)
+    port = srv.getsockname()[1]
+    bad = None
+    c = Connection('127.0.0.1', port, username='u', allowed_versions={757}, handle_exception=False)
+    try:
+        c.connect()
+        peer = srv.accept()[0]
+        c.disconnect(immediate=True)
+        p = serverbound.play.ChatPacket()
+        p.message = 'late'
+        c.write_packet(p)                      # a late write on the dead connection stays in the queue
+        if c.networking_thread is not None:
+            c.networking_thread.join(3.0)
+        peer.close()
+        srv.close()                            # from now on the port refuses
+        try:
+            c.connect()
+            bad = 'connect to a closed port did not fail'
+        except OSError:
+            pass
+        for imm in (False, True, False):
+            try:
+                c.disconnect(immediate=imm)
+            except Exception as e:
+                bad = bad or 'disconnect(immediate=%r) after the refused reconnect raised %r' % (imm, e)
+    except Exception as e:
+        bad = bad or 'scenario raised %r' % (e,)
+    finally:
+        try:
+            srv.close()
+        except OSError:
+            pass
+    return dict(confirmed=bad is not None,
+                call='connect; disconnect(immediate); late write_packet; server gone; connect (refused); disconnect()',
+                observed=bad or 'conforms')
+
+
 class ConnectModel(Unit):
     """The real _connect against models of the socket layer: success, or OSError at any stage; every resulting object
     state still lets disconnect() run (definite assignment on exceptional exits)."""
@@ -385,6 +432,10 @@ class ConnectModel(Unit):
         second = bool(E.fork(2, 'had-earlier-connection'))
         if second:
             put_in_state(conn, 'idle', 'closed', log)
+            if E.fork(2, 'stale-packets-left-in-queue'):
+                # the previous connection ended with packets still queued (immediate disconnect, late write_packet)
+                conn.__dict__['_outgoing_packet_queue'] = deque(['stale-1', 'stale-2'])
+        I.override(raw(Connection, '_write_packet'), lambda I_, c, p: c.socket.send(b'frame of %s' % str(p).encode()), kind='contract')
 
         def getaddrinfo(I_, host, port, *a):
             log.append('getaddrinfo')
@@ -396,7 +447,8 @@ class ConnectModel(Unit):
             log.append(('socket', fam))
             if stage == 'socket':
                 raise OSError('too many open files')
-            s = GSock(log, fail_connect=(stage == 'connect'), shutdown_raises=(stage in ('connect', 'makefile')))
+            s = GSock(log, fail_connect=(stage == 'connect'), shutdown_raises=(stage in ('connect', 'makefile')),
+                      established=False)
             if stage == 'makefile':
                 def mf(*a):
                     raise OSError('makefile failed')
@@ -419,6 +471,9 @@ class ConnectModel(Unit):
         else:
             E.check('connect.failure-propagates', isinstance(outcome, OSError), note='%r' % (outcome,))
             E.check('connect.failure-not-connected', d['connected'] is False)
+            E.check('connect.failure-no-stale-queue', d.get('socket') is None or len(d.get('_outgoing_packet_queue', ())) == 0,
+                    note='the contract the typestate proof uses: after a failed _connect that left a socket object behind, '
+                         'nothing of an earlier connection is still queued (else the next disconnect() flushes it into a dead socket)')
         # whatever happened, disconnect must be callable
         for imm in (False, True):
             try:
@@ -429,7 +484,13 @@ class ConnectModel(Unit):
         return None
 
     def replay(self, model, label):
-        return replay_lifecycle(label)
+        rp = replay_lifecycle(label)
+        return rp if rp['confirmed'] else replay_stale_queue()
+
+    def bounded(self, rng, tier):
+        rp = replay_stale_queue()
+        return dict(name='C16.connect.stale-queue-live', evaluations=1, bound='one live loopback scenario',
+                    failures=[dict(call=rp['call'], observed=rp['observed'], witness='stale-queue')] if rp['confirmed'] else [])
 
 
 def units(tier):
